@@ -21,6 +21,8 @@ impl CasManager {
     /// they still hold the index read guard: once the file is open, a concurrent overwrite or
     /// removal of the key can unlink the path without affecting the reader.
     pub fn open_blob(&self, blob_hash: &BlobHash) -> Result<File, CasManagerError> {
+        #[cfg(feature = "verif-hooks")]
+        crate::verif::point("blob.before_open");
         let cas_path = self.paths.cas_file_path(blob_hash);
         File::open(&cas_path).map_err(|e| CasManagerError::FileOperation {
             operation: CasIoOperation::OpenBuffered,
